@@ -1661,3 +1661,54 @@ M("c05s", "fire", ["C05"], "documents without a release type are read as type 'g
         self.internal''', '''        self.type = data[self._section].get("type", "g").lower()
         self.is_layered = bool(data[self._section].get("is_layered", False))
         self.internal'''))
+
+M("c05t", "fire", ["C05"], "pre-productmd image paths below /os/ keep one character too many",
+  (TI, '''class Images(productmd.common.MetadataBase):
+
+    def __init__(self, metadata):
+        super(Images, self).__init__()
+        self._metadata = metadata
+        self.images = {}
+
+    def __getitem__(self, platform):
+        return self.images[platform]
+
+    def _fix_path(self, path):
+        if self._metadata.header.version_tuple == (0, 0):
+            if path.startswith("/"):
+                if "/os/" in path:
+                    path = path[path.find("/os/")+4:]''', '''class Images(productmd.common.MetadataBase):
+
+    def __init__(self, metadata):
+        super(Images, self).__init__()
+        self._metadata = metadata
+        self.images = {}
+
+    def __getitem__(self, platform):
+        return self.images[platform]
+
+    def _fix_path(self, path):
+        if self._metadata.header.version_tuple == (0, 0):
+            if path.startswith("/"):
+                if "/os/" in path:
+                    path = path[path.find("/os/")+3:]'''))
+
+M("c05u", "fire", ["C05"], "0.3 treeinfo variants: the addons option is probed with section and option swapped",
+  (TI, '''        addons = ""
+        if parser.has_option(section, "addons"):
+            addons = parser.get(section, "addons")
+        elif parser.has_option(section, "variants"):''', '''        addons = ""
+        if parser.has_option("addons", section):
+            addons = parser.get(section, "addons")
+        elif parser.has_option(section, "variants"):'''))
+
+M("c04n", "fire", ["C04"], "is_layered is read when another (misspelt) option exists: never",
+  (TI, '''        if parser.has_option(self._section, "is_layered"):
+            self.is_layered = parser.getboolean(self._section, "is_layered")
+
+    @property
+    def major_version''', '''        if parser.has_option(self._section, "is_layere"):
+            self.is_layered = parser.getboolean(self._section, "is_layered")
+
+    @property
+    def major_version'''))
